@@ -58,9 +58,9 @@ Print Assumptions C03_fragment_hypotheses.
 (* ... and through the inline phase: the token tree of the spelled text is the tree it was written from
    (tok_of: paragraphs holding their lines as raw text separated by soft line breaks, one-line paragraphs holding raw text, one Emphasis / Strong, raw text
    (leaf FEm: the span types must also satisfy emph_spans), quotes, lists of one or more items separated by blank lines (same bullet, or same delimiter with any numbers; the items but the last loose) with the marker's attributes) *)
-From Mistletoe Require Import Proofs.EmphSimple Proofs.InertProse Proofs.RefSentence Proofs.LinkSentence.
+From Mistletoe Require Import Proofs.EmphSimple Proofs.InertProse Proofs.RefSentence Proofs.LinkSentence Proofs.CodeSpan.
 Theorem C03_fragment_token_tree : forall types span_types keep t f ln st,
-  fragment_config types = true -> prose_spans span_types = true -> emph_spans span_types = true -> inert_spans span_types = true -> ref_spans span_types = true ->
+  fragment_config types = true -> prose_spans span_types = true -> emph_spans span_types = true -> inert_spans span_types = true -> leaf_spans span_types = true ->
   wf_b t = true -> (depth t <= f)%nat ->
   make_tokens span_types keep [] (fst (fst (tokenize_block types (S f) (text_of (spell t)) ln st))) = [tok_of false t].
 Proof. exact fragment_token_tree. Qed.
@@ -76,7 +76,7 @@ Print Assumptions C03_fragment_fuel_suffices.
 
 Theorem C03_fragment_document : forall cfg t,
   fragment_config (cfg_block cfg) = true -> prose_spans (cfg_span cfg) = true -> emph_spans (cfg_span cfg) = true ->
-  inert_spans (cfg_span cfg) = true -> ref_spans (cfg_span cfg) = true -> wf_b t = true ->
+  inert_spans (cfg_span cfg) = true -> leaf_spans (cfg_span cfg) = true -> wf_b t = true ->
   fst (fst (parse_lines cfg (text_of (spell t)))) = Document [tok_of false t].
 Proof. exact fragment_document. Qed.
 Print Assumptions C03_fragment_document.
@@ -87,7 +87,7 @@ Proof. exact fragment_document_markdown. Qed.
 Print Assumptions C03_fragment_document_markdown.
 
 Theorem C03_fragment_document_configs :
-  forallb (fun c => fragment_config (cfg_block c) && prose_spans (cfg_span c) && emph_spans (cfg_span c) && inert_spans (cfg_span c) && ref_spans (cfg_span c))
+  forallb (fun c => fragment_config (cfg_block c) && prose_spans (cfg_span c) && emph_spans (cfg_span c) && inert_spans (cfg_span c) && leaf_spans (cfg_span c))
           [cfg_html; cfg_html_nohtml; cfg_latex; cfg_mathjax; cfg_default] = true.
 Proof. exact document_configs. Qed.
 Print Assumptions C03_fragment_document_configs.
@@ -100,7 +100,7 @@ Print Assumptions C03_fragment_document_configs.
 From Mistletoe Require Import Proofs.FragmentHtml.
 Theorem C03_fragment_html : forall cfg o t,
   fragment_config (cfg_block cfg) = true -> prose_spans (cfg_span cfg) = true -> emph_spans (cfg_span cfg) = true ->
-  inert_spans (cfg_span cfg) = true -> ref_spans (cfg_span cfg) = true -> wf_b t = true ->
+  inert_spans (cfg_span cfg) = true -> leaf_spans (cfg_span cfg) = true -> wf_b t = true ->
   render_html o (fst (fst (parse_lines cfg (text_of (spell t))))) = html_f o false t ++ [10].
 Proof. exact fragment_html. Qed.
 Print Assumptions C03_fragment_html.
@@ -318,14 +318,14 @@ Print Assumptions C03_fragment_lists_instance.
    returns exactly the trees written, in order, and the HTML is their HTML joined by newlines *)
 Theorem C03_fragment_seq_document : forall cfg ts,
   fragment_config (cfg_block cfg) = true -> prose_spans (cfg_span cfg) = true -> emph_spans (cfg_span cfg) = true ->
-  inert_spans (cfg_span cfg) = true -> ref_spans (cfg_span cfg) = true -> seq_ok_b ts = true -> forallb wf_b ts = true ->
+  inert_spans (cfg_span cfg) = true -> leaf_spans (cfg_span cfg) = true -> seq_ok_b ts = true -> forallb wf_b ts = true ->
   fst (fst (parse_lines cfg (text_of (join_blank (map spell ts))))) = Document (tok_seq false ts).
 Proof. exact fragment_seq_document. Qed.
 Print Assumptions C03_fragment_seq_document.
 
 Theorem C03_fragment_seq_html : forall cfg o ts,
   fragment_config (cfg_block cfg) = true -> prose_spans (cfg_span cfg) = true -> emph_spans (cfg_span cfg) = true ->
-  inert_spans (cfg_span cfg) = true -> ref_spans (cfg_span cfg) = true -> seq_ok_b ts = true -> forallb wf_b ts = true ->
+  inert_spans (cfg_span cfg) = true -> leaf_spans (cfg_span cfg) = true -> seq_ok_b ts = true -> forallb wf_b ts = true ->
   render_html o (fst (fst (parse_lines cfg (text_of (join_blank (map spell ts)))))) = join [10%Z] (map (html_f o false) ts) ++ [10%Z].
 Proof. exact fragment_seq_html. Qed.
 Print Assumptions C03_fragment_seq_html.
@@ -391,3 +391,36 @@ Theorem C03_fragment_sentence_instance :
   wf_b (FSent 83 $"ay" [MEm 42 0 ($"one") ($" and ")]) = false.
 Proof. vm_compute. repeat split; reflexivity. Qed.
 Print Assumptions C03_fragment_sentence_instance.
+
+(* a CODE SPAN inside a sentence (Proofs/CodeSpan.v): pre `code` post - the text before and after free of trigger characters, the
+   code of ANY characters (every delimiter of the core tokens included: * _ [ ] ( ) !) but backticks and the characters a regex span
+   finder needs - tokenizes to the text, ONE InlineCode holding the content (one space stripped on each side when both are there
+   and the content is not all spaces), the text: core_tokens.code_pattern - two look-behinds, two look-aheads, a lazy repetition and
+   the BACK-REFERENCE to the opening run - evaluated exactly by the regex matcher model on every such sentence; pattern.search skipping
+   the text before; the scanner jumping over the span without looking at its delimiters; InlineCode.find taking the matches
+   CoreTokens.find left; the candidate tokenizer.  leaf_spans = ref_spans and code_spans (every other span type needs a character absent
+   from the sentence; CoreTokens comes before InlineCode) - both hold of every configuration (C03_fragment_document_configs) *)
+Theorem C03_code_in_sentence : forall types fn pre code post,
+  code_spans types = true -> code_ok pre code post = true ->
+  Inline.tokenize_inner types fn (pre ++ [96%Z] ++ code ++ [96%Z] ++ post) = EmphSentence.raw_if pre ++ [code_of code] ++ EmphSentence.raw_if post.
+Proof. exact code_in_sentence. Qed.
+Print Assumptions C03_code_in_sentence.
+
+Theorem C03_code_in_sentence_hypotheses :
+  (forallb (fun c => code_spans (cfg_span c)) [cfg_html; cfg_html_nohtml; cfg_markdown; cfg_latex; cfg_mathjax; cfg_default] = true) /\
+  (code_ok ($"call ") ($"f(*a, **b)[0] _x_ ![i](u)") ($" now.") = true) /\
+  (code_of ($" x ") = InlineCode (mkCode [96%Z] [32%Z] ($"x"))) /\ (code_of ($"  ") = InlineCode (mkCode [96%Z] [] ($"  "))) /\
+  (code_ok [] ($"a`b") [] = false) /\ (code_ok [] [] [] = false) /\ (code_ok [] ($"a<b") [] = false).
+Proof. split; [exact code_span_configs|exact code_span_instance]. Qed.
+Print Assumptions C03_code_in_sentence_hypotheses.
+
+(* ... and such a sentence is a LEAF of the fragment (FTick), at every nesting depth: tokens, HTML (<code> around the escaped content)
+   and the Markdown round trip (delimiter, padding, content, padding, delimiter give the text back) compose with the block laws *)
+Theorem C03_fragment_code_instance :
+  let t := FQuote [FTick 99 $"all " $"f(*a, **b)[0] _x_" $" now."; FMore (MBullet 45) 1 [FTick 97 $" " $" x " []] false (FItem (MBullet 45) 1 [FPara 122 [] []])] in
+  wf_b t = true /\
+  text_of (spell t) = [ $"> call `f(*a, **b)[0] _x_` now." ++ [10%Z]; $"> " ++ [10%Z]; $"> - a ` x `" ++ [10%Z]; $"> - z" ++ [10%Z] ] /\
+  html_f (mkHopts false false) false (FTick 97 $" " $" x>y " []) = $"<p>a <code>x&gt;y</code></p>" /\
+  wf_b (FTick 97 [] $"x`y" []) = false /\ wf_b (FTick 97 [] $"x" $" ") = false.
+Proof. vm_compute. repeat split; reflexivity. Qed.
+Print Assumptions C03_fragment_code_instance.
